@@ -998,6 +998,85 @@ def stream_jac(ctx, model):
                 ctx.disagree("jac.transpose.matrix", case, G.enc(Gtm), G.enc(Jc.T), oracle=jac_oracle)
 
 
+def _build_block_operator(case):
+    import jax.numpy as jnp
+    from scico.operator import Operator
+
+    n1, n2, m, cplx = case["n1"], case["n2"], case["m"], case["cplx"]
+    dt = np.complex128 if cplx else np.float64
+    A1, B1 = (jnp.asarray(G.dec(case[k], (m, n1), cplx), dtype=dt) for k in ("A1", "B1"))
+    C2 = jnp.asarray(G.dec(case["C2"], (m, n2), cplx), dtype=dt)
+    c0 = jnp.asarray(G.dec(case["c0"], (m,), cplx), dtype=dt)
+    return Operator(((n1,), (n2,)), output_shape=(m,), eval_fn=lambda x: A1 @ x[0] + B1 @ jnp.conj(x[0]) + (C2 @ x[1]) ** 2 + c0,
+                    input_dtype=dt, output_dtype=dt)
+
+
+def jac_block_oracle(case):
+    """block-array argument: jvp = finite difference of F; Re<w, J v> = Re<Gmap w, v> summed over the blocks"""
+    import scico.numpy as snp
+
+    common.setup_scico()
+    F = _build_block_operator(case)
+    n1, cplx = case["n1"], case["cplx"]
+    dt = np.complex128 if cplx else np.float64
+    u, v, w = (G.dec(case[k], None, cplx) for k in ("u", "v", "w"))
+    mkb = lambda a: snp.blockarray([np.asarray(a[:n1], dtype=dt), np.asarray(a[n1:], dtype=dt)])  # noqa: E731
+    U, V, W = mkb(u), mkb(v), snp.array(np.asarray(w, dtype=dt))
+    Fu, Jv = F.jvp(U, V)
+    h = 2.0**-10
+    fd = (np.asarray(F(U + h * V)) - np.asarray(F(U - h * V))) / (2 * h)
+    if not np.allclose(np.asarray(Jv), fd, rtol=1e-5, atol=1e-5):
+        return {"u": G.enc(u), "v": G.enc(v), "jvp": G.enc(np.asarray(Jv)), "finite_difference": G.enc(fd)}
+    gw = F.vjp(U, conjugate=True)[1](W)
+    lhs = float(np.real(np.sum(np.conj(np.asarray(W)) * np.asarray(Jv))))
+    rhs = re_inner(gw, V) if hasattr(gw, "arrays") else float("nan")
+    if not abs(lhs - rhs) <= 1e-8 * (1 + abs(lhs)):
+        return {"u": G.enc(u), "v": G.enc(v), "w": G.enc(w), "Re<w,Jv>": lhs, "Re<vjp(w),v>": rhs}
+    return None
+
+
+def stream_jac_block(ctx, model):
+    """operator with a BlockArray argument: `Operator.jvp/vjp`, `linop.jacobian` (tree_map / `G(v)[0]` on blocks);
+    the model sees the concatenated vector and the operator family `Op` with block-structured A, B, C"""
+    import scico.numpy as snp
+    from scico import linop
+
+    rng = ctx.rng
+    for _ in range(ctx.n(10, 80)):
+        cplx = bool(rng.random() < 0.6)
+        dt = np.complex128 if cplx else np.float64
+        n1, n2, m = int(rng.integers(1, 4)), int(rng.integers(1, 4)), int(rng.integers(1, 4))
+        n = n1 + n2
+        A1 = G.dy(rng, (m, n1), cplx)
+        B1 = G.dy(rng, (m, n1), cplx, scale=1.0) if (cplx and rng.random() < 0.5) else np.zeros((m, n1))
+        C2 = G.dy(rng, (m, n2), cplx, bits=2, scale=1.0)
+        c0 = G.dy(rng, (m,), cplx)
+        u, v, w = G.dy(rng, (n,), cplx), G.dy(rng, (n,), cplx), G.dy(rng, (m,), cplx)
+        conjugate = bool(rng.random() < 0.6)
+        case = {"n1": n1, "n2": n2, "m": m, "cplx": cplx, "A1": G.enc(A1), "B1": G.enc(B1), "C2": G.enc(C2), "c0": G.enc(c0),
+                "u": G.enc(u), "v": G.enc(v), "w": G.enc(w), "conjugate": conjugate}
+        F = _build_block_operator(case)
+        mkb = lambda a: snp.blockarray([np.asarray(a[:n1], dtype=dt), np.asarray(a[n1:], dtype=dt)])  # noqa: E731
+        U, V, W = mkb(u), mkb(v), snp.array(np.asarray(w, dtype=dt))
+        z1, z2 = np.zeros((m, n1)), np.zeros((m, n2))
+        gop = model.call("opjac", n=n, m=m, F={"A": G.cmat(np.hstack([A1, z2])), "B": G.cmat(np.hstack([B1, z2])),
+                                                  "C": G.cmat(np.hstack([z1, C2])), "c": G.cv(c0)}, u=G.cv(u), v=G.cv(v), w=G.cv(w))
+        ctx.case({"tag": "jac_block", "n1": n1, "n2": n2, "m": m, "cplx": cplx, "conjugate": conjugate},
+                 ("jac_block", n1, n2, m, cplx, conjugate, bool(np.any(B1))))
+        ctx.count(f"jac_block:{'c128' if cplx else 'f64'}:conjugate={conjugate}")
+        Fu, Jv = F.jvp(U, V)
+        ok = _cmp_vec(ctx, "jac_block.value", case, Fu, G.from_cv(gop["eval"]), jac_block_oracle)
+        ok = ok and _cmp_vec(ctx, "jac_block.jvp", case, Jv, G.from_cv(gop["jvp"]), jac_block_oracle)
+        gw = F.vjp(U, conjugate=conjugate)[1](W)
+        if not hasattr(gw, "arrays") or _shape_sig(gw) != _shape_sig(U) or _dtype_of(gw) != _dtype_of(U):
+            ctx.disagree("jac_block.vjp.structure", case, {"shape": _shape_sig(gw), "dtype": _dtype_of(gw)}, {"shape": _shape_sig(U), "dtype": _dtype_of(U)}, oracle=jac_block_oracle)
+            continue
+        ok = ok and _cmp_vec(ctx, "jac_block.vjp", case, G.flat_blocks(gw), G.from_cv(gop["vjp" if conjugate else "vjp_noconj"]), jac_block_oracle)
+        J = linop.jacobian(F, U)
+        ok = ok and _cmp_vec(ctx, "jac_block.jacobian.eval", case, J(V), G.from_cv(gop["jvp"]), jac_block_oracle)
+        ok = ok and _cmp_vec(ctx, "jac_block.jacobian.adj", case, G.flat_blocks(J.adj(W)), G.from_cv(gop["vjp"]), jac_block_oracle)
+
+
 def stream_jac_mixed(ctx, model):
     """operators whose input and output dtypes differ in kind: real -> complex (a real image and
     complex measurements) and complex -> real"""
@@ -1883,7 +1962,7 @@ def correspond(ctx, model):
     common.setup_scico()
     warnings.filterwarnings("ignore", message="Casting complex values to real")
     for stream in (run_corpus, stream_boundary, stream_l21, stream_tv, stream_setdist, stream_linop_loss, stream_fn, stream_blocks, stream_single, stream_real_arg,
-                   stream_div_reject, stream_jac, stream_jac_mixed, stream_function, stream_hess, stream_heap, stream_heap_exhaustive, stream_autograd_api, stream_linadj2):
+                   stream_div_reject, stream_jac, stream_jac_block, stream_jac_mixed, stream_function, stream_hess, stream_heap, stream_heap_exhaustive, stream_autograd_api, stream_linadj2):
         _guard(ctx, model, stream)
 
 
@@ -2134,6 +2213,8 @@ def replay(ctx, model, case):
         r = linop_loss_oracle(c)
     elif op.startswith("linadj"):
         r = linadj_oracle(c)
+    elif op.startswith("jac_block"):
+        r = jac_block_oracle(c)
     elif op.startswith("jac"):
         r = jac_oracle(c)
     elif op.startswith("hess"):
